@@ -263,7 +263,7 @@ def generate(tier, seed):
             out.append(mk_case(fixed_struct("cat", [(1, "a"), (2, "b")], [(1, "c")],
                                             [(mm, [sum(b, [])]) for mm, b in body]), exh=2))
     # (2) random contents
-    for _ in range(1100 if quick else 25000):
+    for _ in range(6000 if quick else 40000):
         kind = "cat" if rng.random() < 0.5 else "ord"
         out.append(mk_case(gen_struct(rng, kind, rng.random() < 0.3), rnd=1))
     return out
